@@ -5,7 +5,6 @@ import (
 	"go/ast"
 	"go/token"
 	"go/types"
-	"sort"
 	"strings"
 
 	"golang.org/x/tools/go/cfg"
@@ -172,44 +171,159 @@ func rulePU1() Rule {
 					}
 				}
 			}
-			// every call of a trim function defers its result
-			for _, f := range c.funcsOfPkg("printer", false) {
-				info := f.Info()
-				f.OwnNodes(func(n ast.Node) bool {
-					call, ok := n.(*ast.CallExpr)
-					if !ok {
-						return true
-					}
-					fo := core.StaticCallee(info, call)
-					if fo == nil || !trimFns[c.P.FuncOf(fo)] {
-						return true
-					}
-					key := f.Name + "|" + exprStr(call)
-					as, _ := c.P.Parent(call).(*ast.AssignStmt)
-					var ifs *ast.IfStmt
-					if as != nil {
-						ifs, _ = c.P.Parent(as).(*ast.IfStmt)
-					}
-					good := false
-					if ifs != nil && ifs.Init == ast.Stmt(as) && len(as.Lhs) == 1 {
-						id, _ := as.Lhs[0].(*ast.Ident)
-						if be, ok := ast.Unparen(ifs.Cond).(*ast.BinaryExpr); ok && id != nil && be.Op == token.NEQ && isNilIdent(info, be.Y) && exprStr(be.X) == id.Name {
-							for _, s := range ifs.Body.List {
-								if ds, ok := s.(*ast.DeferStmt); ok && exprStr(ds.Call.Fun) == id.Name {
-									good = true
+			// every call of a trim function defers its result - or hands it to its own caller, which
+			// then has the obligation (the function joins the set and the calls are examined again)
+			judged := map[*ast.CallExpr]bool{}
+			for round := 0; round < 6; round++ {
+				grew := false
+				for _, f := range c.funcsOfPkg("printer", false) {
+					info := f.Info()
+					f.OwnNodes(func(n ast.Node) bool {
+						call, ok := n.(*ast.CallExpr)
+						if !ok || judged[call] {
+							return true
+						}
+						fo := core.StaticCallee(info, call)
+						if fo == nil || !trimFns[c.P.FuncOf(fo)] {
+							return true
+						}
+						judged[call] = true
+						key := f.Name + "|" + exprStr(call)
+						as, _ := c.P.Parent(call).(*ast.AssignStmt)
+						var ifs *ast.IfStmt
+						if as != nil {
+							ifs, _ = c.P.Parent(as).(*ast.IfStmt)
+						}
+						defersWhenSet := func(ifs *ast.IfStmt, name string) bool {
+							if be, ok := ast.Unparen(ifs.Cond).(*ast.BinaryExpr); ok && be.Op == token.NEQ && isNilIdent(info, be.Y) && exprStr(be.X) == name {
+								for _, s := range ifs.Body.List {
+									if ds, ok := s.(*ast.DeferStmt); ok && exprStr(ds.Call.Fun) == name {
+										return true
+									}
+								}
+							}
+							return false
+						}
+						good, passedOn := false, false
+						if as != nil && len(as.Lhs) == 1 && len(as.Rhs) == 1 {
+							if id, _ := as.Lhs[0].(*ast.Ident); id != nil {
+								switch {
+								case ifs != nil && ifs.Init == ast.Stmt(as):
+									good = defersWhenSet(ifs, id.Name)
+								default:
+									// the test follows the assignment
+									if blk, ok := c.P.Parent(as).(*ast.BlockStmt); ok {
+										if i := stmtIndex(c.P, blk.List, as); i >= 0 && i+1 < len(blk.List) {
+											if nx, ok := blk.List[i+1].(*ast.IfStmt); ok && nx.Init == nil {
+												good = defersWhenSet(nx, id.Name)
+											}
+										}
+									}
+									// or the closure is this function's own result
+									if !good {
+										if v, ok := objOf(info, id).(*types.Var); ok && isNamedResult(f, v) && onlyHideResults(c, f, v, trimFns) {
+											passedOn = true
+										}
+									}
 								}
 							}
 						}
-					}
-					if good {
-						rr.OK(f, key, call.Pos(), "deferred", "the undo closure is deferred whenever it is non-nil")
-					} else {
-						rr.Bad(f, key, call.Pos(), "the result of the hide function is not deferred on the non-nil branch: the hidden separator is never restored and the tree stays modified after Fprint")
-					}
-					return true
-				})
+						if ret, ok := c.P.Parent(call).(*ast.ReturnStmt); ok && len(ret.Results) == 1 && f.Lit == nil {
+							passedOn = true
+						}
+						if passedOn {
+							if _, complete := c.callSitesOf(f); complete {
+								rr.OK(f, key, call.Pos(), "handed-on", "the undo closure is this function's result; every caller is held to deferring it")
+								if !trimFns[f] {
+									trimFns[f] = true
+									grew = true
+								}
+								return true
+							}
+						}
+						if good {
+							rr.OK(f, key, call.Pos(), "deferred", "the undo closure is deferred whenever it is non-nil")
+						} else {
+							rr.Bad(f, key, call.Pos(), "the result of the hide function is not deferred on the non-nil branch: the hidden separator is never restored and the tree stays modified after Fprint")
+						}
+						return true
+					})
+				}
+				if !grew {
+					break
+				}
 			}
 		}}
+}
+
+// objOf is the object an identifier defines or uses.
+func objOf(info *types.Info, id *ast.Ident) types.Object {
+	if o := info.Defs[id]; o != nil {
+		return o
+	}
+	return info.Uses[id]
+}
+
+// isNamedResult reports whether v is a named result of f.
+func isNamedResult(f *core.Func, v *types.Var) bool {
+	if f.Type.Results == nil {
+		return false
+	}
+	for _, fld := range f.Type.Results.List {
+		for _, nm := range fld.Names {
+			if f.Info().Defs[nm] == types.Object(v) {
+				return len(f.Type.Results.List) == 1 && len(fld.Names) == 1
+			}
+		}
+	}
+	return false
+}
+
+// onlyHideResults: the named result v of f is assigned nothing but nil and
+// results of hide functions, and every return statement is bare or returns v.
+func onlyHideResults(c *Ctx, f *core.Func, v *types.Var, hide map[*core.Func]bool) bool {
+	info := f.Info()
+	ok := true
+	f.OwnNodes(func(n ast.Node) bool {
+		switch x := n.(type) {
+		case *ast.AssignStmt:
+			for i, l := range x.Lhs {
+				id, isID := ast.Unparen(l).(*ast.Ident)
+				if !isID || objOf(info, id) != types.Object(v) {
+					continue
+				}
+				if len(x.Lhs) != len(x.Rhs) {
+					ok = false
+					continue
+				}
+				r := ast.Unparen(x.Rhs[i])
+				if isNilIdent(info, r) {
+					continue
+				}
+				call, isCall := r.(*ast.CallExpr)
+				if !isCall {
+					ok = false
+					continue
+				}
+				fo := core.StaticCallee(info, call)
+				if fo == nil || !hide[c.P.FuncOf(fo)] {
+					ok = false
+				}
+			}
+		case *ast.ReturnStmt:
+			if len(x.Results) == 1 {
+				if id, isID := ast.Unparen(x.Results[0]).(*ast.Ident); !isID || info.Uses[id] != types.Object(v) {
+					ok = false
+				}
+			}
+		case *ast.UnaryExpr:
+			if id, isID := ast.Unparen(x.X).(*ast.Ident); isID && x.Op == token.AND && info.Uses[id] == types.Object(v) {
+				ok = false
+			}
+		}
+		return true
+	})
+	return ok
 }
 
 // rulePU2: no source of nondeterminism in the printer.
@@ -390,34 +504,15 @@ func rulePU8() Rule {
 				rr.Unkp(c.P, "printer.push/heredoc", 0, "push or heredoc method not found")
 				return
 			}
+			eng := c.pu8()
 			for _, f := range c.funcsOfPkg("printer", false) {
 				if f == push || f == pop {
 					continue
 				}
 				info := f.Info()
-				delta := func(n ast.Node) int {
-					call, ok := n.(*ast.CallExpr)
-					if !ok {
-						return 0
-					}
-					if _, deferred := c.P.Parent(call).(*ast.DeferStmt); deferred {
-						return 0
-					}
-					fo := core.StaticCallee(info, call)
-					if fo == nil {
-						return 0
-					}
-					switch c.P.FuncOf(fo) {
-					case push:
-						return 1
-					case pop:
-						return -1
-					}
-					return 0
-				}
 				uses := false
 				f.OwnNodes(func(n ast.Node) bool {
-					if delta(n) != 0 {
+					if len(eng.effectsAt(f, n, nil)) > 0 {
 						uses = true
 					}
 					return true
@@ -425,8 +520,9 @@ func rulePU8() Rule {
 				if !uses {
 					continue
 				}
-				// correlation atoms: conditions over immutable operands that occur in if statements
-				atoms := collectAtoms(c.P, f)
+				// correlation atoms: conditions over immutable operands that occur in if statements,
+				// and the conditions of the helpers called, in this function's terms
+				atoms := atomsWith(c.P, f, eng.callAtoms(f))
 				g := cfg.New(f.Body, core.MayReturn(info))
 				worst := ""
 				nval := 1 << len(atoms)
@@ -435,14 +531,25 @@ func rulePU8() Rule {
 					for i, a := range atoms {
 						val[a] = v&(1<<i) != 0
 					}
-					worst = balance(c.P, f, g, delta, val)
+					worst, _, _ = balanceX(c.P, f, g, func(n ast.Node) []depthEffect { return eng.effectsAt(f, n, val) }, val, false)
 				}
 				key := f.Name + "|stack-balance"
 				if worst == "" {
 					rr.OK(f, key, f.Pos(), "balanced", fmt.Sprintf("balanced under all %d valuation(s) of %v", nval, atoms))
-				} else {
-					rr.Bad(f, key, f.Pos(), worst)
+					continue
 				}
+				// a helper that opens or closes a frame for its caller
+				if s := eng.summary(f); s != nil && !s.trivial {
+					rr.OK(f, key, f.Pos(), "conditional-helper", "its effect is a function of the conditions it tests ("+s.describe()+") and is accounted for at each of its calls")
+					continue
+				}
+				if why := eng.failed[f]; why != "" && !strings.Contains(worst, why) {
+					worst += "; it cannot be accounted for at its callers either: " + why
+				}
+				rr.Bad(f, key, f.Pos(), worst)
+			}
+			for _, h := range eng.recheck() {
+				rr.Bad(h, h.Name+"|stack-effect", h.Pos(), "the effect of this function on the here-document stack could not be determined consistently (it takes part in a recursion whose members open or close frames for each other)")
 			}
 			// print itself must push before dispatching and pop before Flush: covered by balance (net 0);
 			// redir indexes the top: depth >= 1 holds because every caller chain starts in print after its push.
@@ -557,137 +664,20 @@ func normCond(e ast.Expr) (string, bool) {
 
 // collectAtoms returns the if-conditions (normalised) that occur at least
 // twice in f and only mention immutable operands.
-func collectAtoms(p *core.Program, f *core.Func) []string {
-	info := f.Info()
-	count := map[string]int{}
-	immutable := func(e ast.Expr) bool {
-		ok := true
-		ast.Inspect(e, func(n ast.Node) bool {
-			switch n := n.(type) {
-			case *ast.CallExpr:
-				ok = false
-			case *ast.Ident:
-				if v, isVar := info.Uses[n].(*types.Var); isVar && !v.IsField() {
-					// assigned more than once?
-					cnt := 0
-					ast.Inspect(f.Root().Body, func(x ast.Node) bool {
-						if as, isAs := x.(*ast.AssignStmt); isAs {
-							for _, l := range as.Lhs {
-								if id, isID := l.(*ast.Ident); isID && (info.Uses[id] == v || info.Defs[id] == v) {
-									cnt++
-								}
-							}
-						}
-						return true
-					})
-					if cnt > 1 {
-						ok = false
-					}
-				}
-			}
-			return true
-		})
-		return ok
-	}
-	f.OwnNodes(func(n ast.Node) bool {
-		if ifs, ok := n.(*ast.IfStmt); ok && ifs.Init == nil && immutable(ifs.Cond) {
-			a, _ := normCond(ifs.Cond)
-			count[a]++
-		}
-		return true
-	})
-	var out []string
-	for a, n := range count {
-		if n >= 2 {
-			out = append(out, a)
-		}
-	}
-	sort.Strings(out)
-	if len(out) > 4 {
-		out = out[:4]
-	}
-	return out
-}
+func collectAtoms(p *core.Program, f *core.Func) []string { return atomsWith(p, f, nil) }
 
-// balance runs the depth typestate under one valuation; returns "" or a
-// description of the imbalance.
+// balance runs the depth typestate under one valuation for a counter that is
+// changed by single nodes; returns "" or a description of the imbalance.
 func balance(p *core.Program, f *core.Func, g *cfg.CFG, delta func(ast.Node) int, val map[string]bool) string {
-	const off = 6
-	type set uint32
-	in := map[*cfg.Block]set{}
-	if len(g.Blocks) == 0 {
-		return ""
-	}
-	in[g.Blocks[0]] = 1 << off
-	work := []*cfg.Block{g.Blocks[0]}
-	msg := ""
-	shift := func(s set, d int) set {
-		if d > 0 {
-			return s << uint(d)
+	msg, _, _ := balanceX(p, f, g, func(n ast.Node) []depthEffect {
+		switch d := delta(n); {
+		case d > 0:
+			return []depthEffect{{d, 0}}
+		case d < 0:
+			return []depthEffect{{d, d}}
 		}
-		return s >> uint(-d)
-	}
-	for len(work) > 0 && msg == "" {
-		b := work[0]
-		work = work[1:]
-		st := in[b]
-		for _, n := range b.Nodes {
-			ast.Inspect(n, func(x ast.Node) bool {
-				if _, isLit := x.(*ast.FuncLit); isLit {
-					return false
-				}
-				if x == nil {
-					return true
-				}
-				d := delta(x)
-				if d < 0 && st&((1<<(off+1))-1) != 0 && msg == "" {
-					// some depth <= 0 before a pop
-					msg = fmt.Sprintf("at %s a here-document frame is popped on a path where this function has not pushed one (valuation %v): another construct's pending bodies are flushed at the wrong place", p.PosString(x.Pos()), val)
-				}
-				if d != 0 {
-					st = shift(st, d)
-					if st>>(2*off) != 0 || st == 0 {
-						if msg == "" {
-							msg = fmt.Sprintf("the pending-here-document depth grows without bound around %s (valuation %v)", p.PosString(x.Pos()), val)
-						}
-					}
-				}
-				return true
-			})
-		}
-		if len(b.Succs) == 0 {
-			// exit block (return or end): depth must be 0 — ignore panicking exits
-			if b.Live && st != 0 && st != 1<<off && msg == "" && !endsInPanic(b) && !returnsError(f.Info(), b) {
-				pos := f.Pos()
-				if len(b.Nodes) > 0 {
-					pos = b.Nodes[len(b.Nodes)-1].Pos()
-				}
-				msg = fmt.Sprintf("at the exit %s the function has pushed and popped a different number of here-document frames (valuation %v): pending bodies are lost or flushed twice", p.PosString(pos), val)
-			}
-			continue
-		}
-		// branch on atoms
-		succs := b.Succs
-		if len(b.Succs) == 2 && len(b.Nodes) > 0 && b.Succs[0].Kind == cfg.KindIfThen {
-			if cond, ok := b.Nodes[len(b.Nodes)-1].(ast.Expr); ok {
-				a, pos := normCond(cond)
-				if v, known := val[a]; known {
-					if v == pos {
-						succs = b.Succs[:1]
-					} else {
-						succs = b.Succs[1:]
-					}
-				}
-			}
-		}
-		for _, s := range succs {
-			nw := in[s] | st
-			if nw != in[s] {
-				in[s] = nw
-				work = append(work, s)
-			}
-		}
-	}
+		return nil
+	}, val, false)
 	return msg
 }
 
@@ -800,7 +790,7 @@ func rulePU8b() Rule {
 					d += dd
 					return true
 				})
-				net[f] = d
+				net[f] = d + c.pu8().minNet(f)
 			}
 			// closed world: the depth changes only in the forms the analysis understands
 			for _, f := range funcs {
@@ -839,8 +829,67 @@ func rulePU8b() Rule {
 			}
 			calls := map[*core.Func][]site{}
 			base := map[*core.Func]int{}
+			eng := c.pu8()
 			for _, f := range funcs {
-				if f.Decl == nil {
+				if f.Body == nil {
+					continue
+				}
+				if f.Decl != nil && net[f] != c.pu8().minNet(f) {
+					continue // changes the stack itself: followed statement by statement below
+				}
+				// everything else changes the depth through calls only: the lowest depth before
+				// each call and each index of the top frame is taken from PU8's typestate, which
+				// correlates the conditions under which frames are opened and closed
+				info := f.Info()
+				g := cfg.New(f.Body, core.MayReturn(info))
+				atoms := atomsWith(c.P, f, eng.callAtoms(f))
+				lowAt := map[ast.Node]int{}
+				overall := 0
+				for v := 0; v < 1<<len(atoms); v++ {
+					val := map[string]bool{}
+					for i, a := range atoms {
+						val[a] = v&(1<<i) != 0
+					}
+					balanceObs(c.P, f, g, func(n ast.Node) []depthEffect { return eng.effectsAt(f, n, val) }, val, true, func(x ast.Node, low int) {
+						if low < overall {
+							overall = low
+						}
+						switch x.(type) {
+						case *ast.CallExpr, *ast.IndexExpr:
+							if old, seen := lowAt[x]; !seen || low < old {
+								lowAt[x] = low
+							}
+						}
+					})
+				}
+				for x, low := range lowAt {
+					switch x := x.(type) {
+					case *ast.CallExpr:
+						if _, deferred := c.P.Parent(x).(*ast.DeferStmt); deferred {
+							continue
+						}
+						if fo := core.StaticCallee(info, x); fo != nil {
+							if h := c.P.FuncOf(fo); h != nil && isFn[h] && h.Decl != nil {
+								calls[f] = append(calls[f], site{h, low, x.Pos()})
+							}
+						}
+					case *ast.IndexExpr:
+						if _, idx := direct(info, x); idx {
+							if need := 1 - low; need > base[f] {
+								base[f] = need
+							}
+						}
+					}
+				}
+				// a function literal runs no deeper than the lowest depth its maker passes through
+				for _, l := range funcs {
+					if l.Lit != nil && l.Parent == f {
+						calls[f] = append(calls[f], site{l, overall, l.Lit.Pos()})
+					}
+				}
+			}
+			for _, f := range funcs {
+				if f.Decl == nil || net[f] == c.pu8().minNet(f) {
 					continue
 				}
 				info := f.Info()
